@@ -324,10 +324,35 @@ def r04_5(ctx, v):
         # generator forwards its parameters positionally unchanged
         fwd = [norm(a) for a in inner.args[1:]]
         ok_fwd = fwd == g.params[1:]
+        if not ok_fwd:
+            # optional trailing parameters (with defaults, on both sides) that no caller uses: compare the required ones,
+            # and accept an extra argument only when it is a literal or a local that is only ever bound to literals
+            a_ = line_conv.node.args
+            n_req = len(a_.posonlyargs + a_.args) - len(a_.defaults) - 1 - (1 if line_conv.params and line_conv.params[0] == "self" else 0)
+            extra = inner.args[1 + n_req :]
+
+            def _lit(e_):
+                if isinstance(e_, ast.Constant):
+                    return True
+                if isinstance(e_, ast.Name) and e_.id not in g.params:
+                    ds_ = [st_.value for st_ in walk_own(g.node) if isinstance(st_, ast.Assign) and len(st_.targets) == 1 and norm(st_.targets[0]) == e_.id]
+                    return bool(ds_) and all(isinstance(d_, ast.Constant) for d_ in ds_)
+                return False
+
+            ga_ = g.node.args
+            g_req = len(ga_.posonlyargs + ga_.args) - len(ga_.defaults) - 1
+            if n_req >= 1 and fwd[:n_req] == g.params[1 : 1 + n_req] and g_req == n_req and all(_lit(e_) for e_ in extra):
+                ok_fwd = True
         ctx.check(ok_fwd, "R04.5", g.where(ys[0]), f"{g.qualname} forwards its auxiliary arguments to {line_conv.qualname} unchanged and in order", key_of(g, f"forward:{fwd}"), forwarded=fwd, params=g.params[1:])
         gen_calls = [c for c in walk_own(run.node) if isinstance(c, ast.Call) and same_func(repo.resolve_call(run, c), g)]
         line_calls = [c for c in walk_own(run.node) if isinstance(c, ast.Call) and repo.resolve_call(run, c) is line_conv]
         if not gen_calls or not line_calls:
+            as_values = [x for x in walk_own(run.node) if isinstance(x, (ast.Name, ast.Attribute)) and isinstance(x.ctx, ast.Load) and norm(x).split(".")[-1] in (g.name, line_conv.name) and not any(isinstance(c, ast.Call) and c.func is x for c in walk_own(run.node))]
+            nested = [x for x in ast.walk(run.node) if isinstance(x, (ast.Name, ast.Attribute)) and norm(x).split(".")[-1] in (g.name, line_conv.name)]
+            if not as_values and len(nested) >= 2 and any(isinstance(d_, (ast.FunctionDef, ast.Lambda)) for d_ in ast.walk(run.node) if d_ is not run.node):
+                raise AnalysisError("R04.5", run.where(), "view calls its converters from nested functions / generators chosen once before the loops: which route each branch takes is not followed by this rule")
+            if as_values:
+                raise AnalysisError("R04.5", run.where(as_values[0]), f"view picks its converter as a value (`{norm(as_values[0])}` bound to a local and called later): which route each branch takes is not followed by this rule")
             ctx.violated("R04.5", run.where(), f"view does not offer both routes (whole file / selection) for {line_conv.qualname}", key_of(run, f"routes:{line_conv.qualname}"))
             continue
         for lc in line_calls:
